@@ -18,14 +18,30 @@ fn run(path: u8, rt: &tokio::runtime::Runtime, out: &mut Vec<Failure>) {
     }
 }
 
+fn run_flush(others: u8, rt: &tokio::runtime::Runtime, out: &mut Vec<Failure>) {
+    if let Ok((via_manager, in_db)) = rt.block_on(akd::vx_export::c16_flush_epoch_record(others)) {
+        if via_manager != in_db {
+            out.push(Failure {
+                clause: "cache/TimedCache.flush#epoch_record".into(),
+                case: vec!["c16".into(), "flush".into(), others.to_string()],
+                input: format!("cached manager that has served the epoch record of epoch 1 and {others} node record(s); another writer stores epoch 2; flush_cache(); get(epoch record)"),
+                expected: format!("epoch {in_db} (after a flush the next read of the epoch record reflects storage)"),
+                observed: format!("epoch {via_manager} (served from the cache)"),
+                finding_id: None,
+            });
+        }
+    }
+}
+
 pub fn search(_seed: u64, _full: bool, rt: &tokio::runtime::Runtime) -> SearchResult {
     let mut out = vec![];
     for p in 0..3u8 { run(p, rt, &mut out); }
-    SearchResult { evaluations: 3, failures: out, summary: "a write rejected by the database through each write path (set, batch_set, transaction commit) of a cached manager, followed by a read".into() }
+    for o in [0u8, 1, 3] { run_flush(o, rt, &mut out); }
+    SearchResult { evaluations: 6, failures: out, summary: "flush with only the epoch record cached / with node records cached, then a read of the epoch record; a write rejected by the database through each write path (set, batch_set, transaction commit) of a cached manager, followed by a read".into() }
 }
 
 pub fn replay(case: &[&str], rt: &tokio::runtime::Runtime) -> (bool, String) {
     let mut out = vec![];
-    run(case[0].parse().unwrap(), rt, &mut out);
+    if case[0] == "flush" { run_flush(case[1].parse().unwrap(), rt, &mut out); } else { run(case[0].parse().unwrap(), rt, &mut out); }
     match out.first() { Some(f) => (true, format!("{}: expected {}, observed {}", f.input, f.expected, f.observed)), None => (false, "holds".into()) }
 }
